@@ -146,6 +146,9 @@ func Load(cfg LoadConfig) (*World, error) {
 			w.byName[n] = fn
 		}
 	}
+	for _, fn := range w.Funcs {
+		canonicaliseComparisons(fn)
+	}
 	if len(w.Funcs) == 0 {
 		return nil, &loadError{"no functions with bodies found in the package"}
 	}
@@ -495,6 +498,73 @@ func EachInstr(fn *ssa.Function, f func(ssa.Instruction)) {
 	for _, b := range fn.Blocks {
 		for _, in := range b.Instrs {
 			f(in)
+		}
+	}
+}
+
+
+// canonicaliseComparisons rewrites every comparison of the package's SSA into one operand order, so that
+// `a < b` and `b > a` (and `nil == x`, `2 == len(p)`) are the same instruction for every rule: constants go
+// to the right, loop-carried values (phis) to the left, lengths to the right of what they bound. The
+// rewrite mirrors the operator, so the meaning of the instruction is unchanged.
+func canonicaliseComparisons(fn *ssa.Function) {
+	mirror := map[token.Token]token.Token{token.LSS: token.GTR, token.GTR: token.LSS, token.LEQ: token.GEQ, token.GEQ: token.LEQ, token.EQL: token.EQL, token.NEQ: token.NEQ}
+	var rank func(v ssa.Value, d int) int
+	rank = func(v ssa.Value, d int) int {
+		switch x := v.(type) {
+		case *ssa.Const:
+			return 5
+		case *ssa.MakeInterface:
+			if _, ok := x.X.(*ssa.Const); ok {
+				return 5
+			}
+			return 2
+		case *ssa.Global:
+			return 4
+		case *ssa.UnOp:
+			if x.Op == token.MUL {
+				if _, ok := x.X.(*ssa.Global); ok {
+					return 4 // a package-level marker (DNE, ErrDNE)
+				}
+			}
+			return 2
+		case *ssa.Call:
+			if b, ok := x.Call.Value.(*ssa.Builtin); ok && b.Name() == "len" {
+				return 3
+			}
+			return 2
+		case *ssa.Convert:
+			if d < 3 {
+				return rank(x.X, d+1)
+			}
+			return 2
+		case *ssa.BinOp:
+			// a length or constant expression ± constant keeps the rank of its left operand
+			if _, ok := x.Y.(*ssa.Const); ok && d < 3 && (x.Op == token.ADD || x.Op == token.SUB) {
+				return rank(x.X, d+1)
+			}
+			return 2
+		case *ssa.Phi:
+			return 0
+		case *ssa.Parameter:
+			return 1
+		}
+		return 2
+	}
+	for _, b := range fn.Blocks {
+		for _, in := range b.Instrs {
+			bo, ok := in.(*ssa.BinOp)
+			if !ok {
+				continue
+			}
+			m, isCmp := mirror[bo.Op]
+			if !isCmp {
+				continue
+			}
+			if rank(bo.X, 0) > rank(bo.Y, 0) {
+				bo.X, bo.Y = bo.Y, bo.X
+				bo.Op = m
+			}
 		}
 	}
 }
